@@ -748,6 +748,8 @@ class Flow:
         self.cur: tuple[Site, str] | None = None  # the (site, exception) being discharged: restricts callers to escaping chains
         self.site_ast: ast.AST | None = None  # its AST node: the conditional expressions around it count as guards
         self._live: dict[tuple[int, str], set[str]] = {}
+        self._li: dict[str, dict[str, str]] = {}
+        self._callee: dict[tuple[str, int], tuple[ast.AST, list[FuncInfo]]] = {}
 
     # -- per function caches ---------------------------------------------
     def cfg(self, fi: FuncInfo):
@@ -876,13 +878,23 @@ class Flow:
                 out.append((f, b[1], nn, st2))
         return out
 
+    def local_imports(self, fi: FuncInfo) -> dict[str, str]:
+        if fi.fq not in self._li:
+            self._li[fi.fq] = fi.module.local_imports(fi.node)
+        return self._li[fi.fq]
+
     def resolve_callee(self, fi: FuncInfo, call: ast.Call) -> list[FuncInfo]:
-        li = fi.module.local_imports(fi.node)
+        key = (fi.fq, id(call))
+        if key in self._callee:
+            return self._callee[key][1]
+        li = self.local_imports(fi)
         selfname = fi.params[0] if fi.params and fi.cls is not None else None
         try:
-            return [g for g in self.eff._resolve_call(fi, call, li, selfname) if g.name not in ("__init__", "__new__")]
+            res = [g for g in self.eff._resolve_call(fi, call, li, selfname) if g.name not in ("__init__", "__new__")]
         except Exception:
-            return []
+            res = []
+        self._callee[key] = (call, res)  # the node is kept alive so that its id stays unique
+        return res
 
     # -- guard atoms -------------------------------------------------------
     def atoms(self, fi: FuncInfo, node) -> list[Atom]:
@@ -2771,7 +2783,7 @@ class PathSim:
 
     def _eval_call0(self, fi: FuncInfo, st: PS, e: ast.Call, tv: str) -> list[PS]:
         d = dotted(e.func)
-        li = fi.module.local_imports(fi.node)
+        li = self.flow.local_imports(fi)
         fq = self.repo.resolve(fi.module, d, li) if d else None
         last = (d or "").rsplit(".", 1)[-1]
         if last == "cast" and len(e.args) == 2:
@@ -2781,10 +2793,14 @@ class PathSim:
             out = []
             lb = 0
             if self.cur_node is not None:
+                save_cur, save_sa = self.flow.cur, self.flow.site_ast
+                self.flow.cur, self.flow.site_ast = None, None  # a bound that holds for every caller: the result is cached
                 try:
                     lb = self.flow.minlen(fi, e.args[0], self.cur_node)
                 except Exception:
                     lb = 0
+                finally:
+                    self.flow.cur, self.flow.site_ast = save_cur, save_sa
             for s in self.eval(fi, st, e.args[0], t1):
                 l1 = s.lenvar(t1)
                 s.null[tv] = False
